@@ -1,0 +1,27 @@
+//go:build verif
+
+package domain
+
+// Contracts for govc (see /verif/DESIGN.md). Comment-only file: contributes no code.
+
+//@ spec func isRoutable(s EndpointStatus) bool = s == "healthy" || s == "busy" || s == "warming"
+//@ spec func member(e *Endpoint, xs []*Endpoint) bool = exists mi int :: 0 <= mi && mi < len(xs) && xs[mi] == e
+//@ spec func subset(ys []*Endpoint, xs []*Endpoint) bool = forall si int :: 0 <= si && si < len(ys) ==> member(ys[si], xs)
+//@ spec func noRoutable(xs []*Endpoint) bool = forall ni int :: 0 <= ni && ni < len(xs) ==> !isRoutable(xs[ni].Status)
+//@ spec func allNonNil(xs []*Endpoint) bool = forall ai int :: 0 <= ai && ai < len(xs) ==> xs[ai] != nil
+
+//@ func (s EndpointStatus) IsRoutable
+//@   property C03 C06
+//@   ensures res == isRoutable(s)
+
+//@ func (s EndpointStatus) GetTrafficWeight
+//@   property C06
+//@   ensures isRoutable(s) ==> res > 0.0
+//@   ensures !isRoutable(s) ==> res == 0.0
+//@   ensures !isNaN(res) && !isInf(res) && res >= 0.0 && res <= 1.0
+
+//@ interface EndpointSelector.Select
+//@   requires allNonNil(endpoints)
+//@   ensures err == nil ==> member(res, endpoints) && isRoutable(res.Status)
+//@   ensures err != nil ==> noRoutable(endpoints)
+//@   ensures err == nil || res == nil
